@@ -1063,12 +1063,17 @@ def stream_once_same_table_nick_order(rng):
                               count=(["int", 2] if rng.random() < 0.15 else None))])
     if rng.random() < 0.3:          # an un-nicknamed just_once template of the same table, somewhere
         stmts.insert(rng.randint(0, len(stmts)), ["obj", _T(tb, None, True, [("f0", ["int", 77]), ("f1", ["str", "plain"])])])
+    feats_extra = []
+    if rng.random() < 0.4:          # a row created BEFORE them refers forward to a later nickname: that row's id
+        fw = rng.choice(nicks[1:])  # is allotted first, so "registered last" and "highest id" come apart
+        stmts.insert(0, ["obj", _T("F", None, False, [("fw", ["ref", fw])])])
+        feats_extra = ["forward_ref", "once_nick_order_forward"]
     fields = [("t", ["ref", tb]), ("tv", _F(["e", ["attr", ["var", tb], "f0"]])), ("ts", _F(["t", "s"], ["e", ["attr", ["var", tb], "f1"]]))]
     for q, nk in enumerate(nicks):
         fields.append(("n%d" % q, ["ref", nk]))
         fields.append(("v%d" % q, _F(["e", ["attr", ["var", nk], "f0"]])))
     stmts.append(["obj", _T("C", None, False, fields)])
-    return {"version": rng.choice([2, 3]), "options": [], "stmts": stmts}, ["just_once", "nick", "once_cluster", "once_nick_order"]
+    return {"version": rng.choice([2, 3]), "options": [], "stmts": stmts}, ["just_once", "nick", "once_cluster", "once_nick_order"] + feats_extra
 
 
 def stream_history_rows_hold_once_refs(rng):
@@ -1116,3 +1121,91 @@ def stream_dual_forward_underfilled(rng):
     return {"version": rng.choice([2, 3]), "options": [], "stmts": stmts}, \
         ["dual_forward_ref", "forward_ref", "nick", "dual_forward_underfilled"] + (["just_once"] if once else []) + \
         (["zero_count"] if cnt == ["int", 0] else [])
+
+
+def stream_randref_hidden_child(rng):
+    """rows of a random_reference target that hold child rows (nested templates) in hidden AND visible
+    fields plus hidden scalars; the picker reads the children THROUGH the picked reference (formula
+    `${{who.__kid.k}}`, dotted `reference: who.__kid`), i.e. from the copy the row history loads, in the
+    same iteration, in later iterations and in continued runs"""
+    hf = rng.choice(["__kid", HIDDEN_FIELD, "__p"])
+    kid_h = _T("K", None, False, [("k", ["int", rng.choice([3, 8])]), ("__s", ["int", 6])])
+    kid_v = _T(rng.choice(["K", "L"]), None, False, [("k", ["int", 4])])
+    pfields = [("f0", ["int", 5]), (hf, ["nested", kid_h]), ("__n", ["int", 17])]
+    if rng.random() < 0.6:
+        pfields.insert(rng.randint(0, 2), ("vkid", ["nested", kid_v]))
+    pn = rng.choice(["pp", None])
+    once = rng.random() < 0.25
+    parent = _T("P", pn, once, pfields, count=rng.choice([None, ["int", 2]]))
+    who = rng.choice(["who", "__who"])
+    dfields = [(who, ["randref", pn if (pn and rng.random() < 0.4) else "P"])]
+    uses = [("a", _F(["e", ["attr", ["attr", ["var", who], hf], "k"]])),
+            ("b", ["ref", who + "." + hf]),
+            ("c", _F(["e", ["attr", ["var", who], "__n"]])),
+            ("d", _F(["t", "s"], ["e", ["attr", ["attr", ["var", who], hf], "__s"]])),
+            ("e", _F(["e", ["attr", ["attr", ["var", who], hf], "id"]]))]
+    if any(f == "vkid" for f, _ in pfields):
+        uses.append(("f", _F(["e", ["attr", ["attr", ["var", who], "vkid"], "k"]])))
+        uses.append(("g", ["ref", who + ".vkid"]))
+    rng.shuffle(uses)
+    dfields += uses[:rng.randint(2, len(uses))]
+    stmts = [["obj", parent], ["obj", _T("D", None, False, dfields, count=rng.choice([None, ["int", 2]]))]]
+    return {"version": rng.choice([2, 3]), "options": [], "stmts": stmts,
+            "raw": [rng.randint(0, 10 ** 6) for _ in range(60)], "bias": rng.choice(["lo", "hi", "mix", "mix"])}, \
+        ["random_reference", "hidden_field", "nested", "randref_hidden_child"] + (["nick"] if pn else []) + (["just_once"] if once else [])
+
+
+def stream_once_nick_like_once_table(rng):
+    """two just_once templates where the NICKNAME of one is spelled like the TABLE of the other (legal, a
+    warning only), in both orders, with and without counts; readers use that name (reference, formula)
+    in every iteration and in continued runs - from the second iteration on the per-iteration names are
+    gone and the two persistent maps (by nickname, by table) both hold the name"""
+    tb, other = rng.choice([("B", "A"), ("A", "B"), ("B", "C")])
+    a = _T(other, tb, True, [("f0", ["int", 31]), ("f1", ["str", "byname"])], count=rng.choice([None, ["int", 2]]))
+    b = _T(tb, rng.choice([None, None, "own"]), True, [("f0", ["int", 47]), ("f1", ["str", "bytable"])],
+           count=rng.choice([None, None, ["int", 2]]))
+    stmts = [["obj", a], ["obj", b]]
+    if rng.random() < 0.5:
+        stmts.reverse()
+    fields = [("r", ["ref", tb]), ("v", _F(["e", ["attr", ["var", tb], "f0"]])), ("s", _F(["t", "x"], ["e", ["attr", ["var", tb], "f1"]]))]
+    if rng.random() < 0.5:
+        fields.append(("o", ["ref", other]))
+        fields.append(("ov", _F(["e", ["attr", ["var", other], "f0"]])))
+    stmts.append(["obj", _T("D", None, False, fields)])
+    if rng.random() < 0.25:       # an ordinary row of the table, AFTER the reader (shadows nothing for it)
+        stmts.append(["obj", _T(tb, None, False, [("f0", ["int", 1])])])
+    return {"version": rng.choice([2, 3]), "options": [], "stmts": stmts}, \
+        ["just_once", "nick", "once_nick_like_once_table"]
+
+
+def stream_captured_slot(rng):
+    """dialect 3: a formula `${{B}}` evaluated before any row named B exists in the iteration yields the
+    forward-reference slot OBJECT without reserving an id; the captured object (in a variable, or in a
+    field of a row that is written after its nested children) is written / asked for its id only AFTER
+    a row named B was created (or never is, or B produces no row).  Every id that is eventually drawn
+    through the captured object must be the id of a row or the iteration must fail."""
+    name, nick = rng.choice([("B", None), ("bb", "bb"), ("B", "bb")])
+    target = _T("B", nick, False, [("f1", ["int", 2])], count=rng.choice([None, None, ["int", 2], ["int", 0]]))
+    shape = rng.choice(["var", "var", "nested", "friend_reader"])
+    stmts = []
+    if shape == "var":
+        stmts.append(["var", "later", _F(["e", ["var", name]])])
+        mid = [["obj", target]]
+        if rng.random() < 0.4:
+            mid.insert(rng.randint(0, 1), ["obj", _T("C", None, False, [("f0", ["int", 1])])])
+        stmts += mid
+        use = rng.choice([("b", _F(["e", ["var", "later"]])), ("b", _F(["e", ["attr", ["var", "later"], "id"]]))])
+        stmts.append(["obj", _T("A", None, False, [("f0", ["int", 1]), use])])
+        if rng.random() < 0.3:
+            stmts.append(["obj", _T("B", None, False, [("f1", ["int", 3])])])
+    elif shape == "nested":
+        stmts.append(["obj", _T("A", None, False, [("b", _F(["e", ["var", name]])), ("kid", ["nested", target])],
+                                count=rng.choice([None, ["int", 2]]))])
+    else:
+        stmts.append(["obj", _T("A", None, False, [("__c", _F(["e", ["var", name]])), ("f0", ["int", 1])],
+                                friends=[["obj", target],
+                                         ["obj", _T("D", None, False, [("b", _F(["e", ["attr", ["var", "A"], "__c"]]))])]])])
+    if shape != "var":        # only top-level names have slots: a top-level template of that name comes later
+        stmts.append(["obj", _T("B", nick, False, [("f1", ["int", 5])], count=rng.choice([None, ["int", 0]]))])
+    return {"version": 3, "options": [], "stmts": stmts}, \
+        ["captured_slot", "forward_ref", "formula"] + (["nick"] if nick else []) + (["var_top"] if shape == "var" else ["nested" if shape == "nested" else "friend"])
